@@ -1235,3 +1235,76 @@ pub fn exec_composite(ops: &[COp]) -> Vec<(usize, CObs)> {
   }
   out
 }
+
+// ------------------------------------------------------- share / publish histories (C11)
+
+#[derive(Clone, Debug, Default)]
+pub struct ShareRun {
+  /// per subscriber: (step, event)
+  pub traces: Vec<Vec<(usize, Ev)>>,
+  /// after every step: (source subscriptions so far, tap calls so far, live scheduled tasks)
+  pub after_step: Vec<(usize, usize, usize)>,
+}
+
+pub fn exec_share(src: &ShSrc, publish: bool, ops: &[ShOp]) -> ShareRun {
+  use crate::vtime;
+  vtime::reset(vtime::Mode::Fifo);
+  crate::stamp::set(crate::stamp::AT_SUBSCRIBE);
+  let env = Env::new(1);
+  let leaf = match src {
+    ShSrc::Cold(evs) => Src::Create(evs.iter().map(|e| (0u8, e.clone())).collect()),
+    ShSrc::Hot => Src::Hot(0),
+    ShSrc::Interval(p) => Src::Interval(*p),
+  };
+  // defer counts source subscriptions (src_calls; Create adds one more per subscription), tap counts driven items
+  let counted = matches!(src, ShSrc::Cold(_));
+  let node = Node::un(Un::Tap, Node::Src(Src::Defer(Box::new(Node::Src(leaf)))));
+  let upstream = build(&node, &env);
+  let mut shared = None;
+  let mut connectable = None;
+  if publish {
+    connectable = Some(upstream.publish::<Subj>());
+  } else {
+    shared = Some(sendonly!(upstream.share(), upstream.share_threads()));
+  }
+  let mut probes: Vec<Probe> = vec![];
+  let mut subs: Vec<Option<BSub>> = vec![];
+  let mut run = ShareRun::default();
+  for (k, op) in ops.iter().enumerate() {
+    crate::stamp::set(k);
+    match op {
+      ShOp::Subscribe => {
+        let p = Probe::new();
+        probes.push(p.clone());
+        let s: Option<BSub> = if let Some(sh) = &shared {
+          Some(BSub::new(sh.clone().actual_subscribe(p)))
+        } else if let Some(c) = &connectable {
+          Some(BSub::new(c.fork().actual_subscribe(p)))
+        } else {
+          // already connected: late subscribers of a published observable are not part of the property
+          None
+        };
+        subs.push(s);
+      }
+      ShOp::Unsub(i) => {
+        let live: Vec<usize> = subs.iter().enumerate().filter(|(_, s)| s.is_some()).map(|(i, _)| i).collect();
+        if !live.is_empty() {
+          subs[live[*i % live.len()]].take().unwrap().unsubscribe();
+        }
+      }
+      ShOp::Emit(ev) => emit(&env, InputKind::Subject, 0, ev),
+      ShOp::Advance(n) => vtime::advance(ticks(*n), true),
+      ShOp::Connect => {
+        if let Some(c) = connectable.take() {
+          let _ = c.connect();
+        }
+      }
+    }
+    vtime::run_until_stalled();
+    let c = lock!(env.counters).clone();
+    let subs_so_far = if counted { c.src_calls / 2 + c.src_calls % 2 } else { c.src_calls };
+    run.after_step.push((subs_so_far, c.tap_calls, vtime::live_tasks()));
+  }
+  run.traces = probes.iter().map(|p| p.recs().into_iter().map(|r| (r.step, r.ev)).collect()).collect();
+  run
+}
